@@ -222,6 +222,14 @@ class ClassInfo:
                             for p in init.params:
                                 if p.arg == val.id and p.annotation is not None:
                                     return c, p.annotation
+                            # a local of __init__ declared with a type comment / annotation
+                            for st2 in ast.walk(init.node):
+                                if (isinstance(st2, ast.Assign) and st2.type_comment and len(st2.targets) == 1
+                                        and isinstance(st2.targets[0], ast.Name) and st2.targets[0].id == val.id):
+                                    return c, ast.parse(st2.type_comment, mode="eval").body
+                                if (isinstance(st2, ast.AnnAssign) and isinstance(st2.target, ast.Name)
+                                        and st2.target.id == val.id):
+                                    return c, st2.annotation
                         # type comment?
                         return c, None  # type: ignore
         return None
